@@ -14,6 +14,7 @@ import (
 	"net/url"
 	"os"
 	"path/filepath"
+	"runtime/debug"
 	"strings"
 
 	"github.com/rs/zerolog"
@@ -286,9 +287,14 @@ func Verify(path string, opts signers.VerifyOpts) ([]*signers.Signature, error) 
 	return VerifyWith(mod, f, opts)
 }
 
-func VerifyWith(mod *signers.Signer, f *os.File, opts signers.VerifyOpts) ([]*signers.Signature, error) {
-	var sigs []*signers.Signature
-	var err error
+func VerifyWith(mod *signers.Signer, f *os.File, opts signers.VerifyOpts) (sigs []*signers.Signature, err error) {
+	// a verifier that panics on an artifact has not accepted it: callers get an
+	// error (a *PanicError) instead of dying with it
+	defer func() {
+		if r := recover(); r != nil {
+			sigs, err = nil, &PanicError{Value: r, Stack: debug.Stack()}
+		}
+	}()
 	if mod.VerifyStream != nil {
 		r, err2 := magic.Decompress(f, opts.Compression)
 		if err2 != nil {
